@@ -371,7 +371,7 @@ pub fn run(env: &Env) -> i32 {
     rep.probe("C07-bare-union", || probe_text_ts("union U", vec![MTsDef::Type(MTypeDef::new(Kind::Union, "U"))]));
     rep.probe("C07-bare-object", || probe_text_ts("type X", vec![MTsDef::Type(MTypeDef::new(Kind::Object, "X"))]));
 
-    rep.campaign("op-docs", env.cases(12_000, 600_000), (0, 500), op_case);
-    rep.campaign("ts-docs", env.cases(12_000, 600_000), (0, 500), ts_case);
+    rep.campaign("op-docs", env.cases(60_000, 1_000_000), (0, 500), op_case);
+    rep.campaign("ts-docs", env.cases(60_000, 1_000_000), (0, 500), ts_case);
     rep.finish()
 }
